@@ -183,8 +183,9 @@ package sbom
 //@   assigns \nothing
 
 //@ func Edge.flatString
-//@   props C11
+//@   props C11, C13
 //@   assigns \nothing
+//@   reads-each Edge[all]: [C13:key:edge:$f]
 
 //@ func Edge.PointsTo
 //@   props C11
@@ -192,10 +193,11 @@ package sbom
 //@   assigns \nothing
 
 //@ func Person.flatString
-//@   props C11, C14
+//@   props C11, C14, C13
 //@   pure
 //@   assigns \nothing
 //@   reads-each Person[all]: [C14:key:person:$f]
+//@   reads-each Person[all]: [C13:key:person:$f]
 
 //@ func Person.ToSPDX2ClientString
 //@   props C11
@@ -209,14 +211,18 @@ package sbom
 
 // the diff (C14) and equality (C13) of external references go through this key
 //@ func ExternalReference.flatString
-//@   props C11, C14
+//@   props C11, C14, C13
 //@   pure
 //@   assigns \nothing
 //@   reads-each ExternalReference[all]: [C14:key:extref:$f]
+//@   reads-each ExternalReference[all]: [C13:key:extref:$f]
 
 //@ func NodeList.Equal
-//@   props C11
+//@   props C11, C13
 //@   assigns \nothing
+//@   ensures [C13:equal:nil] nl2 == nil ==> !result
+//@   ensures [C13:equal:lengths] result ==> len(nl.Nodes) == len(nl2.Nodes) && len(nl.Edges) == len(nl2.Edges) && len(nl.RootElements) == len(nl2.RootElements)
+//@   ensures [C13:equal:roots] result ==> (forall x string :: (x in elems(nl.RootElements)) <==> (x in elems(nl2.RootElements)))
 
 // ---- diffing ----
 
